@@ -249,6 +249,17 @@ def build(rsome, spec):
         b.u = m.rvar()
         b.ops += 1
     sets = {}
+    retarget = spec.get('retarget')
+    b.retargets = []
+
+    def attach_set(con, name, attach):
+        """con.forall(set `name`); in a retarget history the constraint first gets a DECOY set, the real set is attached
+        to the same (already stated) object after the first formulation."""
+        if retarget:
+            b.retargets.append((con, name, attach))
+            lo = np.full(d, -0.125) + np.array(spec['sets'][name].get('centre', [0.0] * d), float)
+            return con.forall(z >= lo, z <= lo + 0.25)
+        return con.forall(*_set_args(get_set(name), attach))
 
     def get_set(name):
         # constraints are re-created at each use: the same python objects are never shared between two sets
@@ -302,8 +313,7 @@ def build(rsome, spec):
                 G = G + CZ @ z
             con = (G <= 0) if sense == '<=' else (G >= 0) if sense == '>=' else (G == 0)
             if name is not None and hasattr(con, 'forall'):
-                cs = get_set(name)
-                con = con.forall(*_set_args(cs, attach))
+                con = attach_set(con, name, attach)
             m.st(con)
             b.ops += 4 + R
     if spec.get('pw') and not spec.get('vec'):
@@ -321,8 +331,7 @@ def build(rsome, spec):
             pwf = _piecewise(rso, b, sense == '<=', gs, hk, form)
             con = (pwf <= 0) if sense == '<=' else (pwf >= 0)
             if name is not None:
-                cs = get_set(name)
-                con = con.forall(*_set_args(cs, attach))
+                con = attach_set(con, name, attach)
             m.st(con)
             b.ops += 3 + len(grp)
     for row in rows_iter:
@@ -338,13 +347,34 @@ def build(rsome, spec):
             con = (g <= 0) if row['sense'] == '<=' else (g >= 0) if row['sense'] == '>=' else (g == 0)
         name = row.get('set')
         if name is not None and hasattr(con, 'forall'):
-            cs = get_set(name)
-            con = con.forall(*_set_args(cs, row.get('attach', 'list')))
+            con = attach_set(con, name, row.get('attach', 'list'))
             b.ops += 1
         m.st(con)
         b.ops += 2
     if not spec.get('obj_first', True):
         declare_obj()
+    if retarget:
+        # first formulation with the decoy sets, then the declared sets are attached to the stated constraint objects
+        try:
+            if retarget == 'S':
+                if spec.get('solver', 'def') == 'def':
+                    m.solve(display=False)
+                else:
+                    import rsome as _r
+                    m.solve({'eco': _r.eco_solver, 'grb': _r.grb_solver, 'ort': _r.ort_solver}[spec['solver']], display=False)
+            elif retarget == 'P':
+                m.do_math()
+            elif retarget == 'D':
+                m.do_math(primal=False)
+            elif retarget == 'PD':
+                m.do_math()
+                m.do_math(primal=False)
+        except Exception:  # noqa  (the decoy model need not be solvable)
+            pass
+        for con, name, attach in b.retargets:
+            con.forall(*_set_args(get_set(name), attach))
+            b.ops += 1
+        b.ops += 1
     return b
 
 
